@@ -554,13 +554,24 @@ func c10Pick(r *rand.Rand, ms []c10Mutant, n int) []c10Mutant {
 	}
 	taken := map[int]bool{}
 	var out []c10Mutant
+	// every "this item is null" mutant is always taken (an absent optional part at any position is the classic way to
+	// reach a nil dereference; leaving it to the draw made the detection of such defects depend on the seed)
+	for i, m := range ms {
+		if m.class == "type:null" {
+			taken[i] = true
+			out = append(out, m)
+		}
+	}
 	for _, c := range order {
 		idx := byClass[c]
 		i := idx[r.IntN(len(idx))]
+		if taken[i] {
+			continue
+		}
 		taken[i] = true
 		out = append(out, ms[i])
 	}
-	for len(out) < n {
+	for len(out) < n && len(taken) < len(ms) {
 		i := r.IntN(len(ms))
 		if taken[i] {
 			continue
